@@ -664,34 +664,36 @@ func lawText(c c07Case) string {
 // streamCases calls f for every case of a TLC export (one JSON string holding a JSON object per line).
 // TLC writes the line of a state when the state is generated, hence after the line of its predecessor:
 // a history always comes after its prefixes.
-func streamCases(path string, f func(i int, c c07Case)) {
-	fh, err := os.Open(path)
-	if err != nil {
-		fmt.Fprintln(os.Stderr, err)
-		os.Exit(2)
-	}
-	defer fh.Close()
-	r := bufio.NewReaderSize(fh, 4<<20)
+func streamCases(paths string, f func(i int, c c07Case)) {
 	i := 0
-	for {
-		line, err := r.ReadBytes('\n')
-		if len(strings.TrimSpace(string(line))) > 0 {
-			var raw json.RawMessage = line
-			var s string
-			if json.Unmarshal(line, &s) == nil {
-				raw = json.RawMessage(s)
-			}
-			var c c07Case
-			if e := json.Unmarshal(raw, &c); e != nil {
-				fmt.Fprintln(os.Stderr, "bad case line:", e, string(line[:min(len(line), 200)]))
-				os.Exit(2)
-			}
-			f(i, c)
-			i++
-		}
+	for _, path := range strings.Split(paths, ",") {
+		fh, err := os.Open(path)
 		if err != nil {
-			break
+			fmt.Fprintln(os.Stderr, err)
+			os.Exit(2)
 		}
+		r := bufio.NewReaderSize(fh, 4<<20)
+		for {
+			line, err := r.ReadBytes('\n')
+			if len(line) > 2 {
+				var raw json.RawMessage = line
+				var s string
+				if line[0] == '"' && json.Unmarshal(line, &s) == nil {
+					raw = json.RawMessage(s)
+				}
+				var c c07Case
+				if e := json.Unmarshal(raw, &c); e != nil {
+					fmt.Fprintln(os.Stderr, "bad case line:", e, string(line[:min(len(line), 200)]))
+					os.Exit(2)
+				}
+				f(i, c)
+				i++
+			}
+			if err != nil {
+				break
+			}
+		}
+		fh.Close()
 	}
 }
 
